@@ -175,6 +175,17 @@ protected:
   inline size_t impl_get_total_memory() { return MEM; }
 };
 }
+namespace rlbox {
+// B32W: a guest ABI whose int/short are WIDER than the application's (int = 64 bit): values read from sandbox
+// memory must be range-checked when they are narrowed to the application type
+class rlbox_vsbx_wide : public rlbox_vsbx<uint32_t, 32>
+{
+public:
+  using T_IntType = int64_t;
+  using T_ShortType = int32_t;
+};
+}
+using B32W = rlbox::rlbox_vsbx_wide;
 using B32 = rlbox::rlbox_vsbx<uint32_t, 32>;
 using B64 = rlbox::rlbox_vsbx<uint64_t, 32>;   // host-width, non-identity representation (offset from base)
 using B32S = rlbox::rlbox_vsbx_small<16>;
